@@ -15,5 +15,5 @@ def run(ctx):
     ctx.rule = ("TLC-enumerated (Gen_C03) pairs, (name, shorthand) combinations and interval lists plus %d random lists; "
                 "distinct = distinct (operation, arguments); non-trivial = an argument carries an accidental" % n_rand)
     ctx.nontrivial = lambda r: any(len(v) > 1 for v in r["in"].values() if isinstance(v, list))
-    recs = ctx.execute("c03", cases)
+    recs = ctx.execute("c03", cases, orders=2)
     ctx.validate("Trace_C03", recs, driver="c03")
